@@ -80,14 +80,15 @@ RISKY_OPS = sorted(_ALWAYS_FAIL | {V.OP_VERIFY, V.OP_EQUALVERIFY, V.OP_NUMEQUALV
 
 def op_stmt():
     """an operator preceded (usually) by as many pushes as it consumes"""
-    def mk(op, pushes, supply):
-        a = ARITY.get(op, 0)
-        if supply:
-            return pushes[:a] + [["op", op]]
-        return pushes[:max(0, a - 1)] + [["op", op]]
     good = st.sampled_from(GOOD_OPS)
     op = weighted((12, good), (1, st.sampled_from(RISKY_OPS)), (1, st.integers(0x4f, 0xff)))
-    return st.builds(mk, op, st.lists(push_tok(), min_size=6, max_size=6), st.sampled_from([True, True, True, True, False]))
+
+    def with_pushes(op_supply):
+        op, supply = op_supply
+        a = ARITY.get(op, 0)
+        k = a if supply else max(0, a - 1)
+        return st.lists(push_tok(), min_size=k, max_size=k).map(lambda ps: ps + [["op", op]])
+    return st.tuples(op, st.sampled_from([True, True, True, True, False])).flatmap(with_pushes)
 
 
 def locktime_stmt():
@@ -291,6 +292,19 @@ def lock_templates():
         lock = ([["op", V.OP_CODESEPARATOR]] if sep else []) + [["sig", k, ht, "ok", 1 if sep else 0], ["key", k, "c"], ["op", V.OP_CHECKSIG]]
         return lock, []
 
+    def two_sigops(ka, kb, hta, htb, order, bad):
+        # two signature operations in one legacy script, one of them checking a signature the script pushes itself:
+        # the two operations hash different script codes even when their hash types are equal
+        emb = ["sig", kb, htb, "ok", 0]
+        sa = ["sig", ka, hta, "wrongmsg" if bad else "ok", 0]
+        if order == 0:
+            lock = [["key", ka, "c"], ["op", V.OP_CHECKSIGVERIFY], emb, ["key", kb, "c"], ["op", V.OP_CHECKSIG]]
+        elif order == 1:
+            lock = [emb, ["key", kb, "c"], ["op", V.OP_CHECKSIGVERIFY], ["key", ka, "c"], ["op", V.OP_CHECKSIG]]
+        else:
+            lock = [["key", ka, "c"], ["op", V.OP_CHECKSIG], ["op", V.OP_SWAP if False else V.OP_VERIFY], emb, ["key", kb, "c"], ["op", V.OP_CHECKSIG]]
+        return lock, [sa]
+
     def cltv(k, n, ht, which, kind):
         num = ["n", n, "min"] if kind is None else ["ctxnum", "locktime" if which == V.OP_CHECKLOCKTIMEVERIFY else "sequence", kind, "min"]
         lock = [num, ["op", which], ["op", V.OP_DROP], ["key", k, "c"], ["op", V.OP_CHECKSIG]]
@@ -315,6 +329,7 @@ def lock_templates():
                   st.sampled_from([V.OP_CHECKMULTISIG, V.OP_CHECKMULTISIG, V.OP_CHECKMULTISIGVERIFY]),
                   st.sampled_from(["opn", "opn", "opn", "min", "p1"]), st.sampled_from([False, False, True])),
         st.builds(embedded, ks, ht, st.booleans()),
+        st.builds(two_sigops, ks, ks, STD_HT, weighted((2, st.just(1)), (1, STD_HT)), st.integers(0, 2), st.sampled_from([False, False, False, True])),
         st.builds(msig_partial, st.integers(2, 5), st.integers(1, 4), st.integers(0, 15),
                   st.lists(st.sampled_from(["empty", "empty", "wrongkey", "wrongmsg", "highs"]), min_size=1, max_size=2), STD_HT,
                   st.booleans(), st.sampled_from(["c", "c", "u"])),
@@ -385,3 +400,28 @@ def spend_cases():
     raw = st.builds(mk_raw, st.sampled_from(raw_spks), st.sampled_from(["", "51", "0151", "00", "5151", "61", "5175", "0000"]),
                     st.sampled_from([[], [], ["01"], ["51"], ["", "51"]]), flagsets(), contexts())
     return weighted((5, templ), (3, grammar), (2, wpkh), (1, raw))
+
+
+# ------------------------------------------------------------------------------- raw byte scripts
+
+
+def raw_scripts(max_size=40):
+    """byte strings weighted towards opcode values, small pushes and push-length bytes"""
+    byte = weighted((6, st.sampled_from(GOOD_OPS)), (2, st.integers(0, 0x60)), (1, st.integers(0, 255)),
+                    (1, st.sampled_from([0x4c, 0x4d, 0x4e, 0x00, 0x01, 0x02, 0x51, 0x63, 0x64, 0x67, 0x68, 0xac, 0xae, 0xab, 0xb1, 0xb2])))
+    return st.lists(byte, max_size=max_size).map(lambda l: bytes(l).hex())
+
+
+def raw_spend_cases():
+    def mk(sig, spk, wit, flags, ctx):
+        return dict(ctx, kind="spend", shape="bare", lock=[["raw", spk]], unlock=[["raw", sig]], flags=flags,
+                    mut=[["wit-append", wit]] if wit else [])
+    return st.builds(mk, raw_scripts(12), raw_scripts(40), st.lists(raw_scripts(8), max_size=2), flagsets(), contexts())
+
+
+def raw_eval_cases():
+    def mk(prog, stack, flags, ctx, sv):
+        if sv == 0:
+            flags &= ~(V.MINIMALIF | V.WITNESS_PUBKEYTYPE)
+        return dict(ctx, kind="eval", prog=[["raw", prog]], stack=stack, flags=flags, sigversion=sv)
+    return st.builds(mk, raw_scripts(60), st.lists(datas(), max_size=4), flagsets(), contexts(), st.sampled_from([0, 0, 1]))
